@@ -1,29 +1,89 @@
-"""helpers shared by c13.py and c14.py: concurrent TLC runs and parallel record validation"""
+"""helpers shared by c13.py, c14.py and c15.py: bounded concurrent TLC runs with per-process scratch names, parallel record
+validation, calls of the library that turn its exceptions into violations, a check() wrapper that never loses collected
+violations, and a duck data_K base that lends every other method of the real Data_K"""
+import functools
+import os
+import shutil
+import types
+
 from .. import tlc, ftable
+from ..common import MachineryError, WORK
+
+PID = os.getpid()
+_scratch = set()            # directories created by this process (removed by cleanup())
 
 
-def tlc_jobs(jobs, total_workers=16):
-    """jobs: {name: (module, cfg, dump)} run concurrently (each TLC gets WORKERS/len workers, at least 2) -> {name: stats}"""
+def uniq(name):
+    """scratch name unique per property run (names carry the property id) and process"""
+    return f"{name}_p{PID}"
+
+
+def _note(*dirs):
+    for d in dirs:
+        _scratch.add(d)
+
+
+def _note_tlc(name):
+    _note(os.path.join(WORK, "tlc", name))
+
+
+def _note_rec(name):
+    # ftable.validate_records(name): WORK/records/<name> and one TLC run rec_<name>_<c0> per chunk of 20000
+    _note(os.path.join(WORK, "records", name), os.path.join(WORK, "tlc", f"rec_{name}_0"))
+
+
+def cleanup():
+    for d in sorted(_scratch):
+        shutil.rmtree(d, ignore_errors=True)
+    _scratch.clear()
+
+
+def tlc_jobs(jobs, total_workers=16, max_concurrent=3):
+    """jobs: {name: (module, cfg, dump)}; at most max_concurrent TLC processes at a time, 4..6 workers each -> {name: stats}"""
     from concurrent.futures import ThreadPoolExecutor
-    w = max(2, total_workers // max(1, len(jobs)))
+    nconc = max(1, min(max_concurrent, len(jobs)))
+    w = max(4, min(6, total_workers // nconc))
 
     def one(item):
         name, (module, cfg, dump) = item
+        un = uniq(name)
+        _note_tlc(un)
         if dump:
-            return name, ftable.enumerate_states(module, cfg, name, workers=w)
-        return name, tlc.run_tlc(module, cfg, name, workers=w, timeout=1500)
-    with ThreadPoolExecutor(max_workers=len(jobs)) as ex:
+            return name, ftable.enumerate_states(module, cfg, un, workers=w)
+        st = tlc.run_tlc(module, cfg, un, workers=w, timeout=1500)
+        if st.get("timeout"):
+            raise MachineryError(f"TLC timed out on {name}")
+        return name, st
+    with ThreadPoolExecutor(max_workers=nconc) as ex:
         return dict(ex.map(one, jobs.items()))
 
 
-def validate_parallel(module, cfg, recs, name, nchunks):
-    """ftable.validate_records on nchunks slices concurrently (record validation is single-threaded in TLC)"""
+def enumerate_states(module, cfg, name, workers=6, **kw):
+    un = uniq(name)
+    _note_tlc(un)
+    return ftable.enumerate_states(module, cfg, un, workers=workers, **kw)
+
+
+def run_tlc(module, cfg, name, workers=6, **kw):
+    un = uniq(name)
+    _note_tlc(un)
+    return tlc.run_tlc(module, cfg, un, workers=workers, **kw)
+
+
+def validate_records(module, cfg, recs, name):
+    un = uniq(name)
+    _note_rec(un)
+    return ftable.validate_records(module, cfg, recs, un)
+
+
+def validate_parallel(module, cfg, recs, name, nchunks, max_concurrent=3):
+    """ftable.validate_records on nchunks slices, max_concurrent at a time (record validation is single-threaded in TLC)"""
     from concurrent.futures import ThreadPoolExecutor
     nchunks = max(1, min(nchunks, len(recs)))
     size = (len(recs) + nchunks - 1) // nchunks
     slices = [(c, recs[c * size:(c + 1) * size]) for c in range(nchunks) if recs[c * size:(c + 1) * size]]
-    with ThreadPoolExecutor(max_workers=len(slices)) as ex:
-        outs = list(ex.map(lambda t: ftable.validate_records(module, cfg, t[1], f"{name}_{t[0]}"), slices))
+    with ThreadPoolExecutor(max_workers=max(1, min(max_concurrent, len(slices)))) as ex:
+        outs = list(ex.map(lambda t: validate_records(module, cfg, t[1], f"{name}_{t[0]}"), slices))
     tot = dict(distinct=0, generated=0, wall_s=0.0, mode="record-validation")
     bad = {}
     for (c, _), (st, b) in zip(slices, outs):
@@ -33,3 +93,93 @@ def validate_parallel(module, cfg, recs, name, nchunks):
         for i, cl in b.items():
             bad[c * size + i] = cl
     return tot, bad
+
+
+# ---------------------------------------------------------------------------------------------------------------------
+class PrivateGone(Exception):
+    """a private name / internal interface that a sub-check relies on is not there any more: skip the sub-check"""
+
+
+def skipped_private(rep, what, why):
+    rep.part("skipped_private", **{what: str(why)[:300]})
+
+
+def raised_in_library(ex):
+    """-> "module.function" if the exception comes from the wannierberri package (same rule as harness.main), else None"""
+    from ..main import raised_by_code_under_test
+    return raised_by_code_under_test(ex)
+
+
+def lib_call(rep, site, detail, fn, *a, **kw):
+    """one call of the library on an input that the specification admits -> (True, value); an exception raised by the
+    library becomes the violation raises:<site>:<class> (any class, text not compared) and (False, None) is returned so
+    that the check goes on with the next input; exceptions of the harness's own making are re-raised (exit 2)"""
+    try:
+        return True, fn(*a, **kw)
+    except (MachineryError, PrivateGone):
+        raise
+    except Exception as ex:
+        where = raised_in_library(ex)
+        if where is None:
+            raise
+        d = dict(detail)
+        d.update(error=f"{type(ex).__name__}: {str(ex)[:300]}", raised_in=where)
+        rep.violation(f"raises:{site}:{type(ex).__name__}", d)
+        return False, None
+
+
+def run_parts(rep, body):
+    """check() body wrapper: violations that were collected before a later failure of the machinery are still reported"""
+    try:
+        body()
+    except Exception as ex:
+        import traceback
+        where = raised_in_library(ex)
+        if where is not None:
+            rep.violation(f"raises:{where}:{type(ex).__name__}",
+                          dict(error=f"{type(ex).__name__}: {str(ex)[:300]}", raised_in=where,
+                               traceback=traceback.format_exception(type(ex), ex, ex.__traceback__)[-8:]))
+        if rep.violations:
+            print(f"MACHINERY-NOTE property={rep.pid}: {type(ex).__name__}: {str(ex)[:500]} (the check stopped here; the violations found so far are reported)")
+            try:
+                return rep.finish()
+            except MachineryError:
+                pass
+        raise
+    rc = rep.finish()
+    if rc == 0:
+        cleanup()
+    return rc
+
+
+def candidate_finding(rep, key, detail):
+    """a deviation from the property statement on the unchanged tree that the lead has not decided about: reported as
+    KNOWN-FINDING when the key is registered for the property, otherwise printed and kept in the evidence (never silent,
+    never a VIOLATION by itself)"""
+    if key in rep.known:
+        rep.violation(key, detail)
+        return
+    rep.part("candidate_findings", **{key: detail})
+    print(f"CANDIDATE-FINDING property={rep.pid} key={key} {str(detail)[:400]}")
+
+
+class DuckDataKBase:
+    """duck-typed data_K: the subclasses set the few data attributes; every other attribute is looked up on the real
+    Data_K class and bound to the double (methods, properties, cached properties), so that renamed or new private helpers
+    of Data_K keep working"""
+
+    def __getattr__(self, name):
+        if name.startswith("__"):
+            raise AttributeError(name)
+        from wannierberri.data_K.data_K import Data_K
+        try:
+            f = getattr(Data_K, name)
+        except AttributeError:
+            raise AttributeError(f"neither the harness double nor Data_K has the attribute {name!r}", name=name, obj=self) from None
+        if isinstance(f, property):
+            return f.fget(self)
+        if isinstance(f, functools.cached_property):
+            return f.func(self)
+        if isinstance(f, types.FunctionType):
+            return types.MethodType(f, self)
+        return f
